@@ -31,8 +31,13 @@ def write_pool(path):
 
 
 class Mgr:
+    """managers and leaves are FALSY objects: presence must be decided by `is not None`, never by truthiness"""
+
     def __init__(self, i):
         self.i = i
+
+    def __bool__(self):
+        return False
 
     def __repr__(self):
         return "<Mgr %d>" % self.i
@@ -41,6 +46,9 @@ class Mgr:
 class Root:
     def __init__(self, i):
         self.i = i
+
+    def __len__(self):
+        return 0
 
     def __repr__(self):
         return "<Root %d>" % self.i
